@@ -835,12 +835,3 @@ pub fn item(ts: TokenStream) -> Option<String> {
         _ => no(line!()),
     }
 }
-
-/// one case for the Lean driver (`drv ext`): `(case <id> attr <args> <item>)` / `(case <id> derive <item>)`
-pub fn case(id: &str, entry: &str, args: &TokenStream, it: &TokenStream) -> Option<String> {
-    let i = item(it.clone())?;
-    match entry {
-        "attr" => Some(format!("(case {} attr {} {i})", q(id), derive_ex_args(args.clone())?)),
-        _ => Some(format!("(case {} derive {i})", q(id))),
-    }
-}
